@@ -118,8 +118,9 @@ ASSUME = ["the static evaluation is opaque: its value for every position of the 
           "fresh engine per search unless the case asks for warm-up searches on the same engine"]
 
 
-def go_case(cases, fen, d, ref, mode="exact", moves=(), sm=(), warm=(), flipof=0, cap=60000, w=10, why=""):
+def go_case(cases, fen, d, ref, mode="exact", moves=(), sm=(), warm=(), flipof=0, cap=60000, w=10, why="", cycle=()):
     c = {"id": len(cases) + 1, "family": "search", "k": "godepth", "fen": fen, "moves": list(moves), "d": d, "searchmoves": list(sm), "ref": ref, "mode": mode,
+         "cycle": list(cycle), "noeval": mode == "deeprep",
          "warm": list(warm), "flipof": flipof, "cap": cap, "w": w, "why": why, "key": [fen, list(moves), d, list(sm), bool(warm)]}
     cases.append(c)
     return c
@@ -228,8 +229,23 @@ def check_c10(tier, replay=None):
         # (2) end to end: histories with repetitions at various distances
         for fen, moves, nxt in shuffle_histories(rng, 1500 if T else 160):
             go_case(cases, fen, 1, "plain", mode="rep", moves=moves, sm=[nxt], w=3, why="history with shuttling pieces; search the move that may complete a threefold repetition")
+        # (2b) repetitions completed deep inside the search line: perpetual-check positions, the cycle already played k times;
+        #      go depth 4 restricted to the first check must value the line that completes the third occurrence as a draw
+        perpetuals = [("6k1/6p1/8/7Q/8/7K/1rr5/1q6 w - - 0 1", ["h5e8", "g8h7", "e8h5", "h7g8"]),
+                      ("1k6/1p6/8/Q7/8/K7/5rr1/6q1 w - - 0 1", ["a5d8", "b8a7", "d8a5", "a7b8"]),
+                      ("6k1/6p1/8/7Q/8/7K/1r6/1q6 w - - 3 30", ["h5e8", "g8h7", "e8h5", "h7g8"])]
+        flipmv = lambda m: m[0] + str(9 - int(m[1])) + m[2] + str(9 - int(m[3]))
+        perpetuals += [(flip_fen(f), [flipmv(m) for m in cyc]) for f, cyc in perpetuals[:2]]
+        for f, cyc in (perpetuals if T else perpetuals[:2] + perpetuals[3:4]):
+            for d in ((4, 5, 6) if T else (4,)):
+                go_case(cases, f, d, "ab", mode="deeprep", moves=cyc, sm=[cyc[0]] if d <= 4 or T else [], cycle=cyc, cap=1, w=5,
+                        why="perpetual check already played once: the searched line completes the third occurrence at ply 4")
+                go_case(cases, f, d, "ab", mode="deeprep", moves=cyc, cycle=cyc, cap=1, w=5,
+                        why="perpetual check already played once, all root moves")
+            go_case(cases, f, 3, "plain", mode="rep", moves=cyc * 2, sm=[cyc[0]], w=5,
+                    why="perpetual check already played twice: the first check completes the third occurrence at ply 1")
         # (3) fifty-move rule: every half-move clock 0..150
-        roots = ["8/8/8/4k3/8/8/3Q4/4K3 w - - 0 1", "8/8/8/4k3/8/8/3q4/4K3 b - - 0 1", "8/5k2/8/8/8/7P/1r4R1/4K3 w - - 0 1", "4k3/1R4r1/7p/8/8/8/5K2/8 b - - 0 1"]
+        roots = ["8/8/8/4k3/8/8/3Q4/4K3 w - - 0 1", "4k3/3q4/8/8/4K3/8/8/8 b - - 0 1", "8/5k2/8/8/8/7P/1r4R1/4K3 w - - 0 1", "4k3/1R4r1/7p/8/8/8/5K2/8 b - - 0 1"]
         gen, _ = casegen(wd, roots, "c10")
         for f in roots:
             g = gen[f]
